@@ -9,12 +9,17 @@
 let engines : (string * (string list -> string)) list = [
   "charset", E_charset.run;
   "regex", E_regex.run;
+  "partition", E_partition.run;
+  "automata", E_automata.run;
   "looprange", E_looprange.run;
   "strconv", E_strconv.run;
+  "strsearch", E_strsearch.run;
 ]
 (* engines with an oracle of their own: (cases tokens, impl result) -> None | Some msg *)
 let oracles : (string * (string list -> string -> string -> string option)) list = [
   "regex", E_regex.oracle;
+  "partition", E_partition.oracle;
+  "automata", E_automata.oracle;
 ]
 let read_lines f =
   let ic = open_in f in
